@@ -1462,7 +1462,7 @@ namespace bluetoe {
         if ( !check_handle( input, in_size, output, out_size, handle, index ) )
             return;
 
-        auto write = details::attribute_access_arguments::check_write( this );
+        auto write = details::attribute_access_arguments::check_write( client.client_configurations(), client.security_attributes(), this );
         auto rc    = attribute_at( index ).access( write, index );
 
         if ( rc != details::attribute_access_result::success )
@@ -1518,10 +1518,7 @@ namespace bluetoe {
                 {
                     this->free_write_queue( client );
 
-                    if ( rc == details::attribute_access_result::invalid_attribute_value_length )
-                        return error_response( *input, details::att_error_codes::invalid_attribute_value_length, handle, output, out_size );
-
-                    return error_response( *input, details::att_error_codes::invalid_offset, handle, output, out_size );
+                    return error_response( *input, access_result_to_att_code( rc, details::att_error_codes::invalid_offset ), handle, output, out_size );
                 }
             }
         }
